@@ -88,7 +88,7 @@ static int replay(const char *cases, const char *out){
 }
 
 /* ---- ledger on random knot sets ---- */
-typedef struct { double interp, c1, c2, nat; long wrong; } resid;
+typedef struct { double interp, c1, c2, nat, ord; long wrong; } resid;
 static void analyse(int nk, double *x, double *y, resid *r, double *pred_out){
   matrix *xy, *S; NewMatrix(&xy, nk, 2); initMatrix(&S);
   for(int i = 0; i < nk; i++){ xy->data[i][0] = x[i]; xy->data[i][1] = y[i]; }
@@ -112,6 +112,19 @@ static void analyse(int nk, double *x, double *y, resid *r, double *pred_out){
       pred_out[np++] = ym;
       if(!reproduces(S, i, xm, ym)) r->wrong++;
     }
+  }
+  /* the value at an abscissa must not depend on what else is asked in the same call, nor on the order of the queries:
+     all knots and midpoints in ONE call, descending and interleaved, against the one-at-a-time values */
+  r->ord = 0;
+  for(int pass = 0; pass < 2; pass++){
+    dvector *xq, *yp; NewDVector(&xq, np); initDVector(&yp);
+    int *src = malloc(sizeof(int) * np);
+    for(int q = 0; q < np; q++) src[q] = pass == 0 ? np - 1 - q : (q % 2 ? np - 1 - q / 2 : q / 2);   /* descending / ends-inwards */
+    for(int q = 0; q < np; q++){ int k = src[q]; xq->data[q] = (k % 2 == 0) ? x[k / 2] : 0.5 * (x[k / 2] + x[k / 2 + 1]); }
+    cubic_spline_predict(xq, S, yp);
+    if((int)yp->size != np) r->ord = 1.0;
+    else for(int q = 0; q < np; q++){ double e = fabs(yp->data[q] - pred_out[src[q]]) / ymax; if(!(e <= r->ord)) r->ord = e; }
+    free(src); DelDVector(&xq); DelDVector(&yp);
   }
   /* smoothness from the public table: S'_j, S''_j at the right end of piece j against piece j+1 */
   for(int j = 0; j < n; j++){
@@ -192,8 +205,8 @@ static int ledger(const char *out, unsigned long seed, int count){
       double e = fabs(predl[2 * i] - yl[i]) / lmax; if(!(e <= lin)) lin = e;
       if(i + 1 < nk){ double xm = 0.5 * (x[i] + x[i + 1]); e = fabs(predl[2 * i + 1] - (q0 + m * (xm - x[0]))) / lmax; if(!(e <= lin)) lin = e; }
     }
-    VRT_EMIT("{\"e\":\"Ledger\",\"id\":%d,\"nk\":%d,\"dec\":%d,\"irr\":%d,\"interp\":%ld,\"c1\":%ld,\"c2\":%ld,\"nat\":%ld,\"lin\":%ld,\"unit\":%ld,\"lookup\":%ld}",
-             id, nk, dec, irr, vq12(r.interp), vq12(r.c1), vq12(r.c2), vq12(r.nat), vq12(lin), vq12(unit), r.wrong + r2.wrong + rl.wrong);
+    VRT_EMIT("{\"e\":\"Ledger\",\"id\":%d,\"nk\":%d,\"dec\":%d,\"irr\":%d,\"interp\":%ld,\"c1\":%ld,\"c2\":%ld,\"nat\":%ld,\"lin\":%ld,\"unit\":%ld,\"ord\":%ld,\"lookup\":%ld}",
+             id, nk, dec, irr, vq12(r.interp), vq12(r.c1), vq12(r.c2), vq12(r.nat), vq12(lin), vq12(unit), vq12(fmax(r.ord, fmax(r2.ord, rl.ord))), r.wrong + r2.wrong + rl.wrong);
     { /* the one-call form interpolate(): 2 points, as many as knots, and a dense grid */
       int nps[3] = {2, nk, 3 * nk + 1};
       for(int t = 0; t < 3; t++){
